@@ -1,0 +1,23 @@
+//go:build verif
+
+package airgapped
+
+import "github.com/corestario/kyber"
+
+// VerifClose closes the machine's LevelDB handle (verification hook: lets a
+// harness reopen the machine on the same database inside one process).
+func (am *Machine) VerifClose() error {
+	return am.db.Close()
+}
+
+// VerifSecrets exposes the machine's secret values to a verification harness:
+// the long-term private scalar, the base seed and, if a DKG instance for the
+// round is alive, the coefficients of its secret dealer polynomial.
+func (am *Machine) VerifSecrets(dkgIdentifier string) (secKey kyber.Scalar, baseSeed []byte, dealerCoeffs []kyber.Scalar) {
+	secKey = am.secKey
+	baseSeed = append([]byte(nil), am.baseSeed...)
+	if inst, ok := am.dkgInstances[dkgIdentifier]; ok {
+		dealerCoeffs = inst.VerifDealerCoefficients()
+	}
+	return
+}
